@@ -8,7 +8,7 @@ RULE = ('pairs of geometric numbers by angle relation (identical, exactly pi apa
         'running sums of up to 12 (quick) / 400 (thorough) terms. non-trivial = owned op result differs from its operands')
 TRUSTED = TRUSTED_COMMON
 ASSUMPTIONS = ASSUME_COMMON + ['libm sin, cos, atan2 enter only as the model parameter L; the structural theorems hold for every L']
-S3_LEGS = ['the Cartesian value of the sum/difference (the core of C06) is decided by the 60-digit mpmath oracle (predicate cart_sum) with tolerance (1e-10 + 64 eps + 4 ulp(blade*pi/2))*scale + min(4 sqrt(eps)*scale, 8 eps*scale^2/|a+b|): no theorem yet (C06_cartesian is future work)']
+S3_LEGS = ["the Cartesian value of the sum / difference on the general path is a theorem (C06_cartesian, C06_cartesian_sub) under the three libm accuracy premises, which are monitored per recorded call; every case of a run is additionally decided by the 60-digit mpmath oracle (predicate cart_sum) with tolerance (1e-10 + 64 eps + 4 ulp(blade*pi/2))*scale + min(4 sqrt(eps)*scale, 8 eps*scale^2/|a+b|), which also covers inputs outside the theorem's finiteness hypotheses"]
 
 def pair_case(r, big=True):
     P = Prog()
